@@ -10,7 +10,7 @@ From GI Require Import Lib.Bytes Gen.TxtarWriteConsts Txtar.Txtar
   TxtarWrite.Symlink TxtarWrite.SymlinkFacts TxtarWrite.SymlinkPlain
   TxtarWrite.Fd TxtarWrite.FdFacts TxtarWrite.Cli TxtarWrite.CliFacts.
 From GI Require Import Lib.GoSem Lib.GoSemWorld TxtarWrite.SrcLib TxtarWrite.SrcWorld Gen.TxtarWriteWorldSrc
-  TxtarWrite.SrcWorldFacts TxtarWrite.SrcWorldRel TxtarWrite.SrcWalk TxtarWrite.SrcWalkFacts Gen.TxtarWriteSrc TxtarWrite.SrcFacts.
+  TxtarWrite.SrcWorldFacts TxtarWrite.SrcWorldRel TxtarWrite.SrcWorldFd TxtarWrite.SrcWalk TxtarWrite.SrcWalkFacts Gen.TxtarWriteSrc TxtarWrite.SrcFacts.
 Import ListNotations.
 
 (* A cleaned name that the guard of Write lets through (not absolute, not "..", no
@@ -443,6 +443,52 @@ Theorem C15_source_write_existing_is_error : forall cwd fs dir a fs',
   forall n d, In (n, d) (files a) -> get fs (resolve cwd (join dir (clean n))) = None.
 Proof. exact src_Write_existing_is_error. Qed.
 Print Assumptions C15_source_write_existing_is_error.
+
+(* FAILING SYSTEM CALLS, on the translated function.  [fault_os world cwd] (SrcWorldFd.v) is the
+   file-system model as a record of operations in which the fault of the current iteration
+   (world i: MkdirAll, OpenFile, a short write, Close) makes the operation fail the way Fd.v
+   describes, with the open / write / close events logged.  The translated Write run over it IS
+   write_f world: the same file system, the same verdict (the error value decodes to it), the
+   same events.  The close discipline that write_f takes from the regenerated shape flags is thus
+   a consequence of the translation. *)
+Theorem C15_source_write_fault : forall world cwd fs dir a,
+  match write_f world cwd fs dir a with
+  | (fs', r, evs) =>
+      exists i' e, tw_Write (fault_os world cwd) (fs, 0, []) (Some a) dir = Ok ((fs', i', evs), e) /\ dec_fres e = r
+  end.
+Proof. exact src_Write_fault. Qed.
+Print Assumptions C15_source_write_fault.
+
+(* ... hence C15_write_fd_bounded, C15_write_error_prefix, C15_write_f_contained and
+   C15_write_f_never_overwrites are theorems about the translated function: *)
+Theorem C15_source_write_fault_fd_bounded : forall world cwd fs dir a fs' i' tr e,
+  tw_Write (fault_os world cwd) (fs, 0, []) (Some a) dir = Ok ((fs', i', tr), e) ->
+  open_after 0 tr = Some 0 /\
+  forall t1 t2, tr = t1 ++ t2 -> exists n, open_after 0 t1 = Some n /\ n <= 1.
+Proof. exact src_Write_fault_fd_bounded. Qed.
+Print Assumptions C15_source_write_fault_fd_bounded.
+
+Theorem C15_source_write_fault_error_prefix : forall world cwd fs dir a fs' i' tr e,
+  tw_Write (fault_os world cwd) (fs, 0, []) (Some a) dir = Ok ((fs', i', tr), e) -> dec_fres e <> FR WOk ->
+  exists k fsk, k < length (files a) /\
+    write_gen the_guard the_flags cwd fs dir (firstn k (files a)) = (fsk, WOk) /\
+    ext (leftover cwd dir (nth k (files a) ([], []))) fsk fs'.
+Proof. exact src_Write_fault_error_prefix. Qed.
+Print Assumptions C15_source_write_fault_error_prefix.
+
+Theorem C15_source_write_fault_contained : forall world cwd fs dir a fs' i' tr e,
+  is_abs dir = true -> tw_Write (fault_os world cwd) (fs, 0, []) (Some a) dir = Ok ((fs', i', tr), e) ->
+  forall p, get fs' p <> get fs p ->
+    get fs p = None /\
+    (within (resolve cwd dir) p \/ (get fs' p = Some Dir /\ within p (resolve cwd dir))).
+Proof. exact src_Write_fault_contained. Qed.
+Print Assumptions C15_source_write_fault_contained.
+
+Theorem C15_source_write_fault_never_overwrites : forall world cwd fs dir a fs' i' tr e,
+  tw_Write (fault_os world cwd) (fs, 0, []) (Some a) dir = Ok ((fs', i', tr), e) ->
+  forall p x, get fs p = Some x -> get fs' p = Some x.
+Proof. exact src_Write_fault_never_overwrites. Qed.
+Print Assumptions C15_source_write_fault_never_overwrites.
 
 (* txtar.ParseFile as translated: ReadFile, then Parse of everything it returned *)
 Theorem C15_source_parse_file_eq : forall (OS : fs_ops) w file,
